@@ -20,13 +20,21 @@ import (
 // bound     P (quick 2, thorough 3)
 // oracle    at the end: Healthy() == members whose flag is healthy in the preferred tier,
 //           sorted, no duplicates; every Healthy() a reader saw was sorted, duplicate free and
-//           contained only hosts that were members at some point of the execution
+//           contained only hosts that were members at some point of the execution; for combos of single batch
+//           calls (ReplaceAll, Add(d,e), Remove(a,b)) the reader sees only views that exist before or after a call
 // ---------------------------------------------------------------------------
 
 type c15combo struct {
 	name    string
 	init    func(s *Set, h map[string]*Host)
 	threads []func(s *Set, h map[string]*Host)
+}
+
+// c15views lists, for combos made of single batch calls, every usable view a concurrent reader may see: each
+// call takes the set from one view to the next in one step.
+var c15views = map[string][]string{
+	"replaceall(c'backup,a',b')": {"[a b]", "[a2 b2]"},
+	"add(d,e)||remove(a,b)":      {"[a b]", "[a b d e]", "[c]", "[d e]"},
 }
 
 func c15combos() []c15combo {
@@ -70,6 +78,21 @@ func c15combos() []c15combo {
 				h["a2"], h["b2"] = a2, b2
 				s.ReplaceAll([]*Host{a2, b2})
 			},
+		}},
+		{"replaceall(c'backup,a',b')", nil, []func(*Set, map[string]*Host){
+			func(s *Set, h map[string]*Host) {
+				c2, a2, b2 := NewWithType(C, TypeBackup), NewWithType(A, TypeMain), NewWithType(B, TypeMain)
+				h["c2"], h["a2"], h["b2"] = c2, a2, b2
+				s.ReplaceAll([]*Host{c2, a2, b2})
+			},
+		}},
+		{"add(d,e)||remove(a,b)", nil, []func(*Set, map[string]*Host){
+			func(s *Set, h map[string]*Host) {
+				d, e := New("10.0.0.4:1"), New("10.0.0.5:1")
+				h["d"], h["e"] = d, e
+				s.Add(d, e)
+			},
+			func(s *Set, h map[string]*Host) { s.Remove(h["a"], h["b"]) },
 		}},
 		{"unhealthy(a)||unhealthy(b)||healthy(c)[c down]", func(s *Set, h map[string]*Host) { s.MarkHostUnhealthy(h["c"]) }, []func(*Set, map[string]*Host){
 			func(s *Set, h map[string]*Host) { s.MarkHostUnhealthy(h["a"]) },
@@ -121,6 +144,15 @@ func c15concBody() {
 		return "[" + strings.Join(out, " ") + "]"
 	}
 	for _, hs := range seen {
+		if views := c15views[cb.name]; views != nil {
+			ok := false
+			for _, v := range views {
+				ok = ok || v == render(hs)
+			}
+			if !ok {
+				sched.Fail("reader-saw-view-between-two-states / "+cb.name, fmt.Sprintf("a concurrent reader saw %s; the views before and after each single call are %v", render(hs), views))
+			}
+		}
 		for i := range hs {
 			if name(hs[i])[0] == '?' {
 				sched.Fail("reader-saw-unknown-host", cb.name+": "+render(hs))
